@@ -25,6 +25,15 @@ func (w *Worker) genC04(rc *simapi.RunConfig) {
 		rc.Visits = append(rc.Visits, simapi.Visit{Pkg: p, Files: w.index.AllFiles(p)})
 	}
 	wl := w.genWorkload(r, pkgs, true)
+	cliIndex := rc.Index - rc.Index/3
+	if isInterplay(pkgs[0]) && (cliIndex/len(w.visitSchedule()))%2 == 0 && cliIndex%3 == 0 {
+		// saturation run: every checker at once over an interplay package, no
+		// semaphore ordering between any two of them
+		wl = &Workload{EnableAll: true, Params: wl.Params, Concurrency: 2 * len(w.infos)}
+		for _, info := range w.infos {
+			wl.Checkers = append(wl.Checkers, info.Name)
+		}
+	}
 	if len(wl.Checkers) < 4 { // a schedule needs tasks to interleave
 		for i := 0; i < 6; i++ {
 			wl.Checkers = append(wl.Checkers, w.infos[r.Intn(len(w.infos))].Name)
